@@ -6,7 +6,7 @@ set -u
 id=$1; suf=${2:-}; pre=${3:-seed}
 src=/tmp/$pre-$id/out
 W=/var/tmp/confirm-$id
-export CARGO_NET_OFFLINE=true CARGO_TARGET_DIR=/var/tmp/confirm-target
+export CARGO_NET_OFFLINE=true CARGO_TARGET_DIR=${CONFIRM_TARGET:-/var/tmp/confirm-target}
 git -C /repo worktree remove --force $W >/dev/null 2>&1
 git -C /repo worktree add --detach $W HEAD >/dev/null 2>&1 || { echo "worktree failed"; exit 2; }
 trap 'git -C /repo worktree remove --force $W >/dev/null 2>&1' EXIT
